@@ -27,7 +27,8 @@ INJ.install()
 EXPRS = ['n', 'n + 1', 'a', 'h1', 'str(h1)', 'len(h2)', 'undefined_name', '1/0', 'n +', 'h1.nope', 'raise_base()',
          'G_INT', 'g_helper(n)', 'self', 'h2[0]', "{'k': n}"]
 CONDS = [None, None, 'True', 'n >= 0', 'n > 100', '1/0', 'raise_base()', 'undefined', 'h1']
-ALL_KINDS = (values.SCALAR_KINDS + values.CONTAINER_KINDS + values.NODICT_KINDS + values.HOSTILE_KINDS)
+ALL_KINDS = (values.SCALAR_KINDS + values.CONTAINER_KINDS + values.NODICT_KINDS + values.HOSTILE_KINDS +
+             ['mailbox', 'gen', 'map', 'zip', 'list_iter', 'mailbox'] * 4)
 
 
 class PluginBase(BaseException):
@@ -49,7 +50,7 @@ class C01(Prop):
                    'fault points cover the functions of %d anchored modules reached in the dry run; the handler entry '
                    'itself is excluded (a fault must be inside it to be containable)' % len(faults.MODULES),
                    'near-recursion-limit programs are not generated']
-    quick_examples = 250
+    quick_examples = 500
     thorough_examples = 1500
     floors = {'tp_reached': 0.5, 'fault_fired': 0.25, 'hostile_in_scope': 0.15, 'plugin_fault': 0.1,
               'plugin_fault_fired': 0.05}
@@ -69,7 +70,7 @@ class C01(Prop):
                                    'cond': st.sampled_from(CONDS), 'exprs': st.lists(expr, max_size=2),
                                    'frame_type': st.sampled_from(['single_frame', 'all_frame'])}))
         plugin_fault = st.one_of(st.none(), st.tuples(
-            st.sampled_from(['log_tracepoint', 'decorate', 'create_span', 'close', 'counter']),
+            st.sampled_from(['close', 'log_tracepoint', 'close', 'decorate', 'create_span', 'counter']),
             st.sampled_from(['E', 'B', 'B']), st.sampled_from(['all', 'all', 'first', 'second'])).map(list))
         plugin_fault = st.one_of(plugin_fault, plugin_fault.filter(lambda x: x is not None))
         fault = st.tuples(st.integers(0, 400), st.sampled_from(['first', 'last', 'mid', 'second'])).map(list)
@@ -88,6 +89,8 @@ class C01(Prop):
             'plugin_fault': plugin_fault,
             'faults': st.lists(st.lists(fault, min_size=1, max_size=2), min_size=1, max_size=2),
             'src': st.booleans(),
+            # thorough: for some programs *every* fault point the dry run reached is tried (first and last call)
+            'all_faults': st.integers(0, 49).map(lambda x: x == 0 and tier != 'quick'),
         }).map(align)
 
     # -------------------------------------------------------------------------------------------------
@@ -246,6 +249,7 @@ def run_case(self, recipe):
     fired_any = False
     if ok and counts:
         names = sorted(counts)
+        plans = []
         for fl in recipe['faults']:
             plan = {}
             for idx, which in fl:
@@ -253,6 +257,11 @@ def run_case(self, recipe):
                 c = counts[name]
                 k = {'first': 1, 'last': c, 'mid': (c + 1) // 2, 'second': min(2, c)}[which]
                 plan[(name, k)] = True
+            plans.append(plan)
+        if recipe.get('all_faults'):
+            out.cls('full_fault_inventory')
+            plans = [{(nm, 1): True} for nm in names] + [{(nm, counts[nm]): True} for nm in names if counts[nm] > 1]
+        for plan in plans:
             res2, handler2, plugs2, push2 = self.one_run(recipe, rendered, with_agent=True, plan=plan)
             fired = list(INJ.fired)
             if fired:
